@@ -114,6 +114,101 @@ def d_select(b, k, bit):
     return None
 
 
+class Spec:
+    """The same definitions, precomputed in one pass (for the large boundary strings)."""
+
+    def __init__(self, b):
+        n = len(b)
+        self.b = b
+        self.close_of = [None] * n
+        self.open_of = [None] * n
+        self.par = [None] * n
+        st = []
+        self.pre = [0] * (n + 1)
+        for i, x in enumerate(b):
+            self.pre[i + 1] = self.pre[i] + x
+            if x:
+                self.par[i] = st[-1] if st else None
+                st.append(i)
+            elif st:
+                o = st.pop()
+                self.close_of[o] = i
+                self.open_of[i] = o
+        self.ones = [i for i, x in enumerate(b) if x]
+        self.zeros = [i for i, x in enumerate(b) if not x]
+
+    def find_close(self, p):
+        return self.close_of[p] if p < len(self.b) and self.b[p] else None
+
+    def find_open(self, p):
+        return self.open_of[p] if p < len(self.b) and not self.b[p] else None
+
+    def enclose(self, p):
+        return self.par[p] if p < len(self.b) and self.b[p] else None
+
+    parent = enclose
+
+    def excess(self, p):
+        return 0 if p >= len(self.b) else 2 * self.pre[p + 1] - (p + 1)
+
+    def next_sibling(self, p):
+        c = self.find_close(p)
+        if c is None:
+            return None
+        return c + 1 if c + 1 < len(self.b) and self.b[c + 1] else None
+
+    def first_child(self, p):
+        b = self.b
+        if p >= len(b) or not b[p] or p + 1 >= len(b):
+            return None
+        return p + 1 if b[p + 1] else None
+
+    def subtree_size(self, p):
+        c = self.find_close(p)
+        return None if c is None else (c - p) // 2
+
+    def rank1(self, p):
+        return self.pre[min(p, len(self.b))]
+
+    def rank0(self, p):
+        q = min(p, len(self.b))
+        return q - self.pre[q]
+
+    def select(self, k, bit):
+        a = self.ones if bit else self.zeros
+        return a[k] if k < len(a) else None
+
+
+def l2_strings(tier):
+    """Shapes whose 2048-bit (L1) and 65536-bit (L2) blocks have positive, negative and zero net
+    excess in every order, so the per-block minimum is attained in blocks of each sign; returns
+    (bits, positions of interest)."""
+    shapes = [
+        [("o", 1), ("f", 33268), ("c", 1), ("o", 70000), ("c", 70000)],
+        [("o", 3000), ("f", 31000), ("o", 66000), ("c", 66000), ("f", 500), ("c", 3000)],
+    ]
+    if tier == "thorough":
+        shapes += [
+            [("f", 100), ("o", 70000), ("c", 69000), ("o", 500), ("f", 33000), ("c", 500), ("c", 1000)],
+            [("o", 140000), ("f", 10)],
+            [("c", 70000), ("o", 70000), ("f", 1000), ("c", 69000)],
+        ]
+    out = []
+    for sh in shapes:
+        bits = []
+        marks = set()
+        for k, n in sh:
+            marks.update((len(bits) - 1, len(bits), len(bits) + 1))
+            bits += [1] * n if k == "o" else [0] * n if k == "c" else [1, 0] * n
+        L = len(bits)
+        marks.update((L - 2, L - 1, L, L + 1))
+        for blk in ((2048, 65536) if tier == "thorough" else (65536,)):
+            for m in range(blk, L, blk * (1 if blk == 65536 else 16)):
+                marks.update((m - 1, m, m + 1))
+        out.append((bits, sorted(p for p in marks if 0 <= p <= L + 1)))
+    return out
+
+
 OPS = [
     ("find_close", d_find_close), ("find_open", d_find_open), ("enclose", d_enclose), ("parent", d_enclose),
     ("excess", d_excess), ("next_sibling", d_next_sibling), ("first_child", d_first_child), ("subtree_size", d_subtree),
@@ -151,7 +246,9 @@ def boundary_strings(tier):
     return out
 
 
-def rule_bp(progs, tier, name="BPTAB"):
+def rule_bp(progs, tier, name="BPTAB", only=None):
+    """only: restrict to the named constructors (and, in the quick tier, to the boundary and
+    L2-scale strings) when the rule is reused for a structure that sits on one constructor."""
     out = []
     for cfg, P in progs.items():
         res = RuleResult(name, cfg)
@@ -167,9 +264,10 @@ def rule_bp(progs, tier, name="BPTAB"):
             ctors.append(("assemble_with_rate(%d)" % rate, "trees::bp::BalancedParens::<W, trees::bp::WithCsPoppy>::assemble_with_rate", (lambda w, n, r=rate: [list(w), n, r]), True))
         small = strings(tier)
         big = boundary_strings(tier)
+        l2 = l2_strings(tier)
         flip = [0]
 
-        def run_case(cname, fid, mk, has_select, bits, stray, full):
+        def run_case(cname, fid, mk, has_select, bits, stray, full, marks=None):
             flip[0] ^= 1
             I.overrides["util::simd::x86::has_fast_bmi2"] = lambda a, f=flip[0]: f
             I.overrides["bits::scan::has_avx2"] = lambda a, f=flip[0]: f
@@ -179,14 +277,21 @@ def rule_bp(progs, tier, name="BPTAB"):
             r = tmp_ref(bp)
             L = len(bits)
             n = 0
+            spec = Spec(bits) if marks is not None else None
             if full:
                 ps = list(range(0, L + 2))
+            elif marks is not None:
+                ps = marks
             else:
                 ps = sorted({p for p in (0, 1, 2, 31, 32, 62, 63, 64, 65, 127, 128, 511, 512, 513, 2047, 2048, 2049, L // 2 - 1, L // 2, L // 2 + 1, L - 2, L - 1, L, L + 1) if 0 <= p <= L + 1})
             for opn, d in OPS:
-                for p in ps:
+                pp = ps
+                if marks is not None and tier != "thorough" and opn in ("find_open", "enclose", "parent"):
+                    # backward scans are linear in the real code: a thinner position set on the large strings
+                    pp = ps[:: 8 if opn == "find_open" else 4]
+                for p in pp:
                     got = opt(I.call(T + opn, [r, p]))
-                    exp = d(bits, p)
+                    exp = getattr(spec, opn)(p) if spec is not None else d(bits, p)
                     n += 1
                     if got != exp:
                         return n, (cname, opn, p, got, exp, L, stray)
@@ -201,16 +306,22 @@ def rule_bp(progs, tier, name="BPTAB"):
             for k in ks0:
                 got = opt(I.call(T + "select0", [r, k]))
                 n += 1
-                if got != d_select(bits, k, 0):
-                    return n, (cname, "select0", k, got, d_select(bits, k, 0), L, stray)
+                exp = spec.select(k, 0) if spec is not None else d_select(bits, k, 0)
+                if got != exp:
+                    return n, (cname, "select0", k, got, exp, L, stray)
             if has_select:
                 for k in ks1:
                     got = opt(I.call(T + "select1", [r, k]))
                     n += 1
-                    if got != d_select(bits, k, 1):
-                        return n, (cname, "select1", k, got, d_select(bits, k, 1), L, stray)
+                    exp = spec.select(k, 1) if spec is not None else d_select(bits, k, 1)
+                    if got != exp:
+                        return n, (cname, "select1", k, got, exp, L, stray)
             return n, None
 
+        if only:
+            ctors = [c for c in ctors if c[0] in only]
+            if tier != "thorough":
+                small = small[:63:4]
         for cname, fid, mk, has_select in ctors:
             if not (P.fns.get(fid) or P.find(fid)):
                 res.bad("%s:%s" % (name, cname), "constructor %s not found (anchor missing)" % fid)
@@ -230,6 +341,13 @@ def rule_bp(progs, tier, name="BPTAB"):
                 if bad is None:
                     for bits in (big if cname in ("new", "new_with_cspoppy", "assemble_with_rate(3)") or tier == "thorough" else big[:6]):
                         n, b_ = run_case(cname, fid, mk, has_select, bits, M64 if len(bits) % 64 else 0, False)
+                        total += n
+                        if b_:
+                            bad = b_
+                            break
+                if bad is None and (cname == "new" or tier == "thorough"):
+                    for bits, marks in l2:
+                        n, b_ = run_case(cname, fid, mk, has_select, bits, M64 if len(bits) % 64 else 0, False, marks)
                         total += n
                         if b_:
                             bad = b_
@@ -270,5 +388,5 @@ def rule_bp(progs, tier, name="BPTAB"):
                 res.bad("%s:%s:%s" % (name, cname, opn), "%s built by %s over a %d-bit sequence%s: %s(%s) = %r, the excess-scan definition gives %r" % ("BalancedParens", cn, L, " with stray bits past len" if stray else "", opn, p, got, exp))
             else:
                 res.ok({"constructor": cname, "queries": total})
-        res.require_floor(7, "constructor variants")
+        res.require_floor(len(only) if only else 7, "constructor variants")
     return out
